@@ -2,7 +2,9 @@ package props
 
 import (
 	"fmt"
+	"strings"
 	"testing"
+	"unicode/utf8"
 
 	"pgregory.net/rapid"
 	"verif/harness/evid"
@@ -29,6 +31,10 @@ func c13Violation(p *refmqtt.Packet) string {
 		return "will-flag-empty-topic"
 	case p.Level != 5 && p.ClientID == "" && !p.CleanStart:
 		return "v3-empty-client-id-clean-0"
+	case p.WillFlag && (!utf8.ValidString(p.WillTopic) || strings.ContainsRune(p.WillTopic, 0)):
+		return "will-topic-not-a-well-formed-utf8-string" // [MQTT-1.5.4-1], [MQTT-1.5.4-2]
+	case !utf8.ValidString(p.ClientID) || strings.ContainsRune(p.ClientID, 0):
+		return "client-id-not-a-well-formed-utf8-string"
 	}
 	return ""
 }
@@ -222,6 +228,14 @@ func c13Gen(rt *rapid.T) *hist.Case {
 			// a generated CONNECT packet (valid or invalid field combinations)
 			cid := fmt.Sprintf("g%d", rapid.IntRange(0, 3).Draw(rt, "gid"))
 			p := genInvalidConnect(rt, cid)
+			if rapid.IntRange(0, 7).Draw(rt, "ill-formed-string") == 0 {
+				// an otherwise valid CONNECT with a will topic that is not a well-formed UTF-8 string (seeded change C13-f)
+				p = &refmqtt.Packet{Type: refmqtt.CONNECT, Level: p.Level, ProtocolName: map[bool]string{true: "MQIsdp", false: "MQTT"}[p.Level == 3], CleanStart: true, ClientID: cid, KeepAlive: 30,
+					WillFlag: true, WillPayload: []byte("x"), WillTopic: pick(rt, "bad-topic", []string{"w/\x00t", "w/\xed\xa0\x80", "\xffw", "w/\xc3"})}
+				if p.Level != 3 && p.Level != 4 && p.Level != 5 {
+					p.Level, p.ProtocolName = 4, "MQTT"
+				}
+			}
 			if c.Cfg.Auth == "ledger" {
 				p.UsernameFlag, p.Username, p.PasswordFlag, p.Password = true, []byte("u1"), true, []byte("p1")
 				if v := c13Violation(p); v == "" {
@@ -255,7 +269,7 @@ func c13Gen(rt *rapid.T) *hist.Case {
 }
 
 func TestC13(t *testing.T) {
-	r := evid.New("C13", "rapid, two parts. Input part: first packets on fresh connections - valid CONNECTs in many shapes (v3.1/3.1.1/5, clean 0/1, will, credentials), generated CONNECT packets with protocol violations (names, levels, reserved bit, will bit inconsistencies, will QoS 3, empty will topic, empty v3 client id with clean 0, flags without bytes), packets that are not CONNECT, truncated CONNECTs, and later probe connections with the same identifier; hook configuration in {no auth hook, allow-all, bundled ledger hook with username/password rules}. Schedule part: a client with a persistent session and a subscription reconnects (after close/drop/disconnect, or as a takeover) while its new handler is parked between registering the client and sending CONNACK (verif schedule point attach.beforeConnack) and another client publishes to the subscription. Oracle: the first packet on every connection is CONNACK, at most one CONNACK, success only if the reference evaluation of the hooks admits the client, invalid first packets get no session (probe sees session present 0) and the connection is closed; non-trivial = invalid/non-CONNECT first packet, or a parked handler with a concurrent publish; distinct by case")
+	r := evid.New("C13", "rapid, two parts. Input part: first packets on fresh connections - valid CONNECTs in many shapes (v3.1/3.1.1/5, clean 0/1, will, credentials), generated CONNECT packets with protocol violations (names, levels, reserved bit, will bit inconsistencies, will QoS 3, empty will topic, will topic that is not a well-formed UTF-8 string (U+0000, lone surrogate, stray bytes), empty v3 client id with clean 0, flags without bytes), packets that are not CONNECT, truncated CONNECTs, and later probe connections with the same identifier; hook configuration in {no auth hook, allow-all, bundled ledger hook with username/password rules}. Schedule part: a client with a persistent session and a subscription reconnects (after close/drop/disconnect, or as a takeover) while its new handler is parked between registering the client and sending CONNACK (verif schedule point attach.beforeConnack) and another client publishes to the subscription. Oracle: the first packet on every connection is CONNACK, at most one CONNACK, success only if the reference evaluation of the hooks admits the client, invalid first packets get no session (probe sees session present 0) and the connection is closed; non-trivial = invalid/non-CONNECT first packet, or a parked handler with a concurrent publish; distinct by case")
 	defer r.Finish(t)
 	if evid.ReplayMode() {
 		evid.Replay(t, r, replayPath(), c13Check)
